@@ -15,6 +15,14 @@ func Reduce(p *Prop, c *Case, sig string) *Case {
 		if budget <= 0 || (p.Valid != nil && !p.Valid(x)) {
 			return false
 		}
+		if x.Spec != nil && !x.Spec.WellFormed() {
+			return false
+		}
+		for _, a := range x.Aux {
+			if a != nil && !a.WellFormed() {
+				return false
+			}
+		}
 		budget--
 		f := p.RunCheck(x, nil)
 		return f != nil && f.Sig == sig
